@@ -10,9 +10,10 @@ package props
 // same contract was already revised by an earlier transaction of the block".
 
 import (
-	"math"
 	"fmt"
+	"math"
 	"math/rand"
+	"strings"
 
 	"go.sia.tech/core/consensus"
 	"go.sia.tech/core/types"
@@ -251,8 +252,31 @@ func runC04L(c *fw.Ctx) {
 		for k := 0; k < blocks; k++ {
 			p := s.BuildBlock()
 			height := s.ChildHeight()
+			// ElementAccumulator.ValidateTransactionElements (the transaction-pool entry point of the same membership
+			// check): every transaction of a valid block passes; the transaction carrying an altered record does not
+			acc := s.Tip.Elements
+			for ti, txn := range p.Block.V2Transactions() {
+				res.Count("txelements:genuine")
+				if err := acc.ValidateTransactionElements(txn); err != nil {
+					res.Violate(fw.Violation{Key: "c04-txelements-rejects-genuine", What: "ValidateTransactionElements rejected a transaction of a valid block: " + err.Error(),
+						Replay: map[string]any{"mode": mode, "seed": seed, "height": height, "txn": ti}, Expected: "nil", Observed: err.Error()})
+				}
+			}
 			for _, m := range parentMutants(s, p, mrng) {
 				rp := map[string]any{"mode": mode, "seed": seed, "height": height, "mutant": m.kind}
+				if strings.HasPrefix(m.kind, "v2-") && !strings.Contains(m.kind, "sentinel-index") && !strings.Contains(m.kind, "after-inblock-revision") {
+					orig, mut := p.Block.V2Transactions(), m.block.V2Transactions()
+					for ti := range mut {
+						if ti < len(orig) && string(chain.Encode(orig[ti])) == string(chain.Encode(mut[ti])) {
+							continue
+						}
+						res.Count("txelements:altered")
+						res.Eval(fmt.Sprintf("TE/%s/%d/%d/%s/%d", mode, seed, height, m.kind, ti), true)
+						if err := acc.ValidateTransactionElements(mut[ti]); err == nil {
+							res.Violate(fw.Violation{Key: "c04-txelements-accepts-altered:" + m.kind, What: "ValidateTransactionElements accepted a transaction presenting an altered element record (" + m.kind + ")", Replay: rp, Expected: "error", Observed: "nil"})
+						}
+					}
+				}
 				var err error
 				panicked, msg := fw.Recover(func() { err = consensus.ValidateBlock(s.Tip, m.block, m.supp) })
 				res.Eval(fmt.Sprintf("L/%s/%d/%d/%s/%x", mode, seed, height, m.kind, m.block.ID()), true)
